@@ -67,6 +67,7 @@ def run_unit(eng, qualname, timeout_ms=10000, instance=None, discharge=True, cro
     obls = []
     npaths = 0
     eng.stats['dead_ends'] = []
+    eng.stats['checkpoints_hit'] = set()
     try:
         while work:
             prefix = work.pop()
@@ -92,6 +93,12 @@ def run_unit(eng, qualname, timeout_ms=10000, instance=None, discharge=True, cro
         res.error = '%s: %s\n%s' % (type(e).__name__, e, traceback.format_exc())
     res.paths = npaths
     res.dead_ends = list(eng.stats.get('dead_ends', []))
+    if res.undecided is None and res.error is None:
+        # a clause anchored at a program point that no explored path reaches says nothing: the anchor was lost (the call was
+        # removed or renamed, or the contract has a typo) - the unit is undecided rather than silently weaker
+        missing = [k for k in (c.extra.get('checkpoints') or {}) if k not in eng.stats.get('checkpoints_hit', set())]
+        if missing:
+            res.undecided = 'checkpoint(s) %s of the contract are reached on no path (anchor lost)' % ', '.join(sorted(missing))
     if discharge and res.error is None:
         inc = solve.Incremental(eng, timeout_ms) if not cross_check else None
         for o in obls:
